@@ -430,7 +430,7 @@ func (c *Ctx) strmApply(cc *ssa.CallCommon, call *ssa.Call, ins ssa.Instruction,
 			st.B = append(st.B, splitToks(c.strmTok(cc.Args[1], fr, st, 0))...)
 		case "Reset":
 			st.B = nil
-		case "Bytes", "Len", "Cap":
+		case "Bytes", "Len", "Cap", "Grow":
 		case "WriteTo":
 			// drains the buffer into the writer and leaves it empty; the hash never reports a short write
 			w := cc.Args[1]
@@ -563,7 +563,7 @@ func (c *Ctx) strmFacts() int {
 func splitToks(t string) []string {
 	var out []string
 	for _, p := range strings.Split(t, " ++ ") {
-		if p != "ε" {
+		if p != "ε" && p != "nil" { // writing an empty or nil slice appends nothing
 			out = append(out, p)
 		}
 	}
